@@ -29,7 +29,7 @@ def run(diff):
     finally:
         shutil.rmtree(d, ignore_errors=True)
 
-diffs = sorted(glob.glob(os.path.join(sys.argv[1], "*.diff")))
+diffs = sorted(glob.glob(os.path.join(os.path.abspath(sys.argv[1]), "*.diff")))
 with concurrent.futures.ThreadPoolExecutor(max_workers=4) as ex:
     res = list(ex.map(run, diffs))
 n = 0
